@@ -212,6 +212,7 @@ var funcRegistry = map[string]interface{}{
 	"add3":   func(a, b, c int) int { return a + b + c },
 	"cat":    func(a string, rest ...string) string { return a + strings.Join(rest, "") },
 	"ident":  func(v interface{}) interface{} { return v },
+	"shout":  func(s string) string { return s + "!" },
 	"sum": func(xs ...int) int {
 		t := 0
 		for _, x := range xs {
